@@ -52,14 +52,33 @@ SOURCE_DIRS = [None, ["sub"], ["sub/**"], ["**"], [".", "sub"], ["nonexistent"],
                # the root itself, configured: only the files directly in it (not the default discovery)
                ["."], ["<ABS>/"], ["sub/.."], [".", "excl"]]
 EXCL_PATHS = [[], ["excl"], ["excl/**"], ["sub/a.f90"], ["**/*.F90"], ["excl", "sub/deep"], ["<ABS>/excl/inner"],
-              ["docs/../excl/h.f90", "sub/../sub/a.f90", "excl/inner/../inner"]]
+              ["docs/../excl/h.f90", "sub/../sub/a.f90", "excl/inner/../inner"],
+              # the root itself, excluded: as for any directory, only the files directly in it
+              ["."], ["<ABS>/"]]
 INCL_SUFFIXES = [[], [".inc"], ["inc"], [".FYP"], [".F90.in", "_gen"]]
 EXCL_SUFFIXES = [[], [".F90"], ["_tmp.f90"]]
+
+# How the root directory is named (family `root_naming`).  The root is a path, not a pattern, and may be reached through
+# a symbolic link: (directory name of the root, decoy sibling that the name would match if it were read as a glob pattern)
+ROOT_KINDS = {
+    "plain": ("ws", None),
+    "class": ("pr[1]", None), "class_decoy": ("pr[1]", "pr1"),
+    "qmark_decoy": ("pr?", "prx"), "star_decoy": ("p*r", "pxyr"),
+    "symlink": None,          # rootPath = <scratch>/lnk -> <scratch>/real_ws
+    "symlink_parent": None,   # rootPath = <scratch>/lnkp/ws, lnkp -> <scratch>/real_parent
+}
+DECOY = {"decoy.f90": "m_decoy", "sub/decoy2.f90": "m_decoy2", "other/decoy3.F90": "m_decoy3"}
+# settings crossed with every way of naming the root (full product of these four lists x channel)
+SOURCE_DIRS_R = [None, ["sub"], ["**"], ["."]]
+EXCL_PATHS_R = [[], ["excl"], ["."], ["**/*.F90"], ["<ABS>/excl/inner"]]
+INCL_SUFFIXES_R = [[], [".inc"]]
+EXCL_SUFFIXES_R = [[]]
 
 
 # ----------------------------------------------------------------- refscan
 def _expand(root, pat, hidden):
-    p = pat if os.path.isabs(pat) else os.path.join(root, pat)
+    # a relative pattern is relative to the root *directory* (whose own name is not a pattern)
+    p = pat if os.path.isabs(pat) else os.path.join(globmod.escape(root), pat)
     out = set()
     for m in globmod.glob(p, recursive=True, include_hidden=hidden):
         out.add(os.path.realpath(m))
@@ -93,25 +112,49 @@ def refscan(root, source_dirs, excl_paths, incl_suffixes, excl_suffixes, hidden)
 
 
 # --------------------------------------------------------------- execution
-def build_tree(sc, kind):
-    sc.wipe()
-    root = os.path.join(sc.path, "ws")
-    os.makedirs(os.path.join(root, "empty"))
-    for rel, mod in tree(kind).items():
+def _write_tree(root, files):
+    for rel, mod in files.items():
         p = os.path.join(root, rel)
         os.makedirs(os.path.dirname(p), exist_ok=True)
         with open(p, "w") as f:
             f.write(f"module {mod}\nend module {mod}\n")
-    return os.path.realpath(root)
+
+
+def build_tree(sc, kind, rootkind="plain"):
+    """Returns (the path handed to the server as rootPath, the real path of that directory)."""
+    sc.wipe()
+    base = os.path.realpath(sc.path)
+    if rootkind == "symlink":
+        root = os.path.join(base, "real_ws")
+        given = os.path.join(base, "lnk")
+        os.makedirs(root)
+        os.symlink(root, given)
+    elif rootkind == "symlink_parent":
+        root = os.path.join(base, "real_parent", "ws")
+        os.makedirs(root)
+        os.symlink(os.path.join(base, "real_parent"), os.path.join(base, "lnkp"))
+        given = os.path.join(base, "lnkp", "ws")
+    else:
+        name, decoy = ROOT_KINDS[rootkind]
+        root = given = os.path.join(base, name)
+        if decoy:
+            _write_tree(os.path.join(base, decoy), DECOY)
+    os.makedirs(os.path.join(root, "empty"))
+    _write_tree(root, tree(kind))
+    return given, root
 
 
 def run_case(job, acc: Acc):
-    kind, sd, ex, inc, exs, channel = job
+    kind, sd, ex, inc, exs, channel = job[:6]
+    rootkind = job[6] if len(job) > 6 else "plain"
+    family = "discovery" if len(job) == 6 else "root_naming"
     sc = worker_scratch("c18")
-    root = build_tree(sc, kind)
+    given, root = build_tree(sc, kind, rootkind)
+    # an absolute entry is a pattern too: the root's own name is written so that it stands for itself
+    abs_prefix = globmod.escape(given)
 
     def absd(lst):
-        return None if lst is None else [x.replace("<ABS>", root) for x in lst]
+        return None if lst is None else [x.replace("<ABS>", abs_prefix) for x in lst]
 
     sd, ex = absd(sd), absd(ex)
     argv = []
@@ -137,16 +180,19 @@ def run_case(job, acc: Acc):
         with open(os.path.join(root, ".fortlsrc"), "w") as f:
             json.dump(cfg, f)
     s = Server(argv)
-    resp, other = s.initialize(root)
+    resp, other = s.initialize(given)
     exp_a = refscan(root, sd, ex, inc, exs, hidden=True)
     exp_b = refscan(root, sd, ex, inc, exs, hidden=False)
-    key = (kind, repr(sd), repr(ex), repr(inc), repr(exs), channel)
+    key = (kind, repr(job[1]), repr(job[2]), repr(inc), repr(exs), channel, rootkind)
     case = {"tree": kind, "source_dirs": sd, "excl_paths": ex, "incl_suffixes": inc, "excl_suffixes": exs, "channel": channel}
-    tags = {"family": "discovery", "channel": channel, "source_dirs": "unset" if job[1] is None else json.dumps(job[1]),
+    tags = {"family": family, "channel": channel, "source_dirs": "unset" if job[1] is None else json.dumps(job[1]),
             "excl_paths": json.dumps(job[2]), "incl_suffixes": json.dumps(inc), "excl_suffixes": json.dumps(exs)}
+    if family == "root_naming":
+        case.update(root=rootkind, root_path=given, spec={"source_dirs": job[1], "excl_paths": job[2]})
+        tags["root"] = rootkind
     if "error" in resp:
         acc.case(nontrivial_key=key, outcome="error")
-        acc.violation(Violation("discovery", {**tags, "obs": "initialize_error"}, case, "result",
+        acc.violation(Violation(family, {**tags, "obs": "initialize_error"}, case, "result",
                                 str(resp["error"].get("message"))[:200], what=str(case)))
         return
     got = {os.path.realpath(p) for p in s.srv.workspace}
@@ -155,7 +201,7 @@ def run_case(job, acc: Acc):
     if got != exp_a and got != exp_b:
         missing, extra = exp_a - got, got - exp_a
         obs = "missing_and_extra" if missing and extra else ("missing" if missing else "extra")
-        acc.violation(Violation("discovery", {**tags, "obs": obs}, case, rel(exp_a), rel(got),
+        acc.violation(Violation(family, {**tags, "obs": obs}, case, rel(exp_a), rel(got),
                                 what=f"{case} missing={rel(missing)} extra={rel(extra)}"))
         return
     # end to end: the symbols served are exactly the modules of the expected files
@@ -164,7 +210,7 @@ def run_case(job, acc: Acc):
     mods = tree(kind)
     want = sorted(mods[os.path.relpath(p, root)] for p in got)
     if names != want:
-        acc.violation(Violation("discovery", {**tags, "obs": "symbols_differ"}, case, want, names, what=str(case)))
+        acc.violation(Violation(family, {**tags, "obs": "symbols_differ"}, case, want, names, what=str(case)))
     if len(acc.samples) < 2:
         acc.sample({**case, "expected_files": rel(exp_a)})
 
@@ -175,23 +221,45 @@ def jobs(kinds):
             yield (kind, sd, ex, inc, exs, ch)
 
 
+def root_jobs(kinds):
+    for kind in kinds:
+        for rk in ROOT_KINDS:
+            if rk == "plain":
+                continue        # that is family `discovery`
+            for sd, ex, inc, exs, ch in itertools.product(SOURCE_DIRS_R, EXCL_PATHS_R, INCL_SUFFIXES_R, EXCL_SUFFIXES_R, ("cli", "file")):
+                yield (kind, sd, ex, inc, exs, ch, rk)
+
+
 def main(ctx):
     kinds = ["full"] if ctx.quick else ["full", "nested_only", "flat"]
-    ctx.rule = ("full product source_dirs(8) x excl_paths(7) x incl_suffixes(4) x excl_suffixes(3) x channel(2) per tree; "
+    ctx.rule = (f"full product source_dirs({len(SOURCE_DIRS)}) x excl_paths({len(EXCL_PATHS)}) x incl_suffixes({len(INCL_SUFFIXES)}) x "
+                f"excl_suffixes({len(EXCL_SUFFIXES)}) x channel(2) per tree; "
                 "oracle = expected file set from the property text (stdlib glob/os.walk); then workspace/symbol must list "
-                "exactly the modules of those files. Non-trivial = expected set neither empty nor the whole tree.")
+                "exactly the modules of those files. Non-trivial = expected set neither empty nor the whole tree. "
+                f"root_naming: {len(ROOT_KINDS) - 1} ways of naming the root (names with glob metacharacters with and without a "
+                "sibling they would match as patterns, through a symbolic link to the root or to its parent) x "
+                f"source_dirs({len(SOURCE_DIRS_R)}) x excl_paths({len(EXCL_PATHS_R)}) x incl_suffixes({len(INCL_SUFFIXES_R)}) x "
+                f"excl_suffixes({len(EXCL_SUFFIXES_R)}) x channel(2); same oracle.")
     ctx.assumptions = ["whether a wildcard matches hidden entries is not fixed by the statement: both readings are accepted",
                        "suffix matching is case-sensitive for configured suffixes; default suffixes in all-lower or all-upper case"]
-    acc = core.pmap(run_case, jobs(kinds), chunk=8, budget_s=60, label="C18")
-    ctx.add_family("discovery", acc, trees=kinds)
+    only = getattr(ctx, "only", None)
+    if not only or "discovery" in only:
+        acc = core.pmap(run_case, jobs(kinds), chunk=8, budget_s=60, label="C18")
+        ctx.add_family("discovery", acc, trees=kinds)
+    if not only or "root_naming" in only:
+        racc = core.pmap(run_case, root_jobs(kinds), chunk=8, budget_s=60, label="C18/root_naming")
+        ctx.add_family("root_naming", racc, trees=kinds, root_kinds=[k for k in ROOT_KINDS if k != "plain"])
 
 
 def replay(rec):
     c = rec["case"]
     acc = Acc()
 
-    def un(lst, root="<ABS>"):
-        return lst
+    if rec.get("family") == "root_naming" or "root" in c:
+        sp = c["spec"]
+        run_case((c["tree"], sp["source_dirs"], sp["excl_paths"], c["incl_suffixes"], c["excl_suffixes"], c["channel"], c["root"]), acc)
+        return [v.to_json("C18") for v in acc.violations] or None
+
     # stored lists already have absolute paths substituted; map them back to the placeholder form
     def back(lst):
         if lst is None:
